@@ -440,6 +440,8 @@ impl Allocator for Arena {
 
   #[inline]
   fn increase_discarded(&self, size: u32) {
+    assert!(!self.ro, "ARENA is read-only");
+
     #[cfg(feature = "tracing")]
     tracing::debug!("discard {size} bytes");
 
@@ -458,6 +460,8 @@ impl Allocator for Arena {
 
   #[inline]
   fn set_minimum_segment_size(&self, size: u32) {
+    assert!(!self.ro, "ARENA is read-only");
+
     self
       .header()
       .min_segment_size
